@@ -3,6 +3,7 @@ package checks
 import (
 	"context"
 	"fmt"
+	"time"
 
 	zed "github.com/brimdata/super"
 	"github.com/brimdata/super/compiler"
@@ -67,8 +68,30 @@ func pullAll(p zbuf.Puller) ([]zed.Value, error) {
 	}
 }
 
-// lakeQueryVals runs src on the lake with or without the optimizer.
-func lakeQueryVals(ctx context.Context, l *lk.Lake, src string, optimize bool, parallelism int) (vals []zed.Value, err error) {
+// lakeQueryVals runs src on the lake with or without the optimizer, under a
+// watchdog: a query still running after 20 s of real time is reported as hung
+// (context cancelled, goroutines abandoned).
+func lakeQueryVals(ctx context.Context, l *lk.Lake, src string, optimize bool, parallelism int) ([]zed.Value, error) {
+	type result struct {
+		vals []zed.Value
+		err  error
+	}
+	ch := make(chan result, 1)
+	cctx, cancel := context.WithCancel(ctx)
+	defer cancel()
+	go func() {
+		v, err := lakeQueryVals1(cctx, l, src, optimize, parallelism)
+		ch <- result{v, err}
+	}()
+	select {
+	case r := <-ch:
+		return r.vals, r.err
+	case <-time.After(20 * time.Second):
+		return nil, errHang
+	}
+}
+
+func lakeQueryVals1(ctx context.Context, l *lk.Lake, src string, optimize bool, parallelism int) (vals []zed.Value, err error) {
 	defer func() {
 		if p := recover(); p != nil {
 			err = fmt.Errorf("PANIC: %v", p)
